@@ -1317,8 +1317,14 @@ class App(falcon.app.App):
                 await err_handler(req, resp, ex, params, **kwargs)
 
             except HTTPStatus as status:
+                if resp:
+                    # NOTE: Whatever the handler had composed before giving up
+                    #   must not end up in the response for what it raised.
+                    resp.text = resp.data = resp.media = None
                 await self._http_status_handler(req, resp, status, params, ws=ws)
             except HTTPError as error:
+                if resp:
+                    resp.text = resp.data = resp.media = None
                 await self._http_error_handler(req, resp, error, params, ws=ws)
 
             return True
